@@ -182,6 +182,48 @@ PROPS = {
         "trusted_base": ["model: lean/CliUtils/Model/Graph.lean (hand-written; removeVertex modelled as filtering, justified by theorem removeVertex_is_filter)",
                          "model: lean/CliUtils/Model/DepEdges.lean (edge builders of DependencyGraph on parsed annotations; annotation parsing itself is C15/C18)"],
     },
+    "C16": {
+        "level_text": ("Machine-checked Lean 4 theorems about (1) the event multiplexer of the status watcher as a labelled transition system "
+                       "under every interleaving of its goroutines with cancellation, the owners of the input channels and the consumer "
+                       "(counter invariant, no send on / second close of the closed output, no stuck decrement or add, per-input FIFO with no "
+                       "loss or duplication, output closed only after cancellation and after every accepted input is closed and drained, "
+                       "termination measure, last event per object preserved) and (2) the sequential decision logic of ObjectStatusReporter "
+                       "(allow-list filter, handler output incl. NotFound for deletes, start/stop table as a closed form of the namespace / CRD / "
+                       "watch-error history per REST scope, watch-error classes, at most one error event with the once-guard). The model is tied "
+                       "to the code by trace inclusion: histories of the REAL eventFunnel driven by random goroutine programs must be accepted "
+                       "by the model's checker (proved sound), and the REAL DefaultStatusWatcher / ObjectStatusReporter over a fake dynamic client "
+                       "is compared with the model on schedule-independent observables."),
+        "level_note": ("Data races, goroutine leaks and deadlocks of the Go runtime cannot be exhibited by the model; they are observed by the "
+                       "harness only (recovered panics / dead child process, goroutine count before/after with settle time, timeouts), as "
+                       "supporting validation. The theorems are about the model: interleaving semantics with atomic channel rendezvous; informers, "
+                       "contexts and the fake API server are environment. Trusted: Lean kernel (+propext, Quot.sound, Classical.choice), the "
+                       "hand-written model, the Go harness (incl. its LIST/WATCH gate for the resourceVersion-less fake tracker) and the driver."),
+        "technique": "Lean 4 proof (invariants of a transition system, trace-checker soundness) + trace-inclusion / differential correspondence against the real Go code",
+        "domains": ["funnel", "watcher", "watcher-fatal"],
+        "rule": ("funnel: random programs (1-4 producers, 0-3 events each, add/send/close with seeded delays of 0-0.8 ms, cancellation at a random "
+                 "point, optionally slow consumer) run against the real eventFunnel, one case at a time in child processes; a case is non-trivial "
+                 "if it has >= 2 producers or >= 2 events. watcher: 6 hand-written reporter configurations + random scripts (2-9 mutation rounds of "
+                 "create/update/delete on watched and unwatched Pods, ConfigMaps, a Deployment in 2 namespaces, optional watched Namespace object "
+                 "deleted and re-created, optional CRD + custom resource installed/removed, root / namespace / automatic scope, optional slow "
+                 "LIST, racing (no barriers) or strict mode, cancellation at a random step in 1/6 of the cases); non-trivial if >= 2 mutations. "
+                 "watcher-fatal: LIST Forbidden on 0-3 of 3 watched kinds, both scopes, consumer delayed 0-30 ms, 48 trials (quick); quick runs 5000 funnel programs and 706 watcher scripts; "
+                 "non-trivial if >= 2 kinds fail. distinct = distinct canonical input JSON."),
+        "exhaustive_quick": False,
+        "timeout_quick": 300,
+        "explanation": ("Theorems: see level_text. Tie: (a) every observed history of the real funnel (successful / rejected adds, sends, input "
+                        "closes, cancel, output deliveries, output close; logged under a mutex at points where log order is a sound linearisation) "
+                        "is checked for acceptance by Model.Funnel.accepts, which is proved to accept only traces of the transition system; the "
+                        "property predicate (no panic, closed, no leak, each accepted input delivered once in order, closed only after cancel and "
+                        "after every accepted input was closed) is evaluated on the history independently of the model. (b) the real watcher runs "
+                        "scripted cluster histories; per-object event sequences, final statuses, sync/error counts, closure, the target list and (for "
+                        "directly configured reporters) the informer table are compared with Model.Reporter run on the same script, and the property "
+                        "(one sync after the initial LISTs, last event per watched object = status the library computes for its final version or "
+                        "NotFound, nothing for unwatched ids, at most one error, channel closed, no panic) is evaluated on the observations."),
+        "assumptions": ["the fake tracker has no resourceVersions, so the harness never mutates the cluster between an informer's LIST and its WATCH",
+                        "a Namespace / CRD is deleted the way a cluster does it: contents first",
+                        "timeouts (4-6 s) stand for 'never'"],
+        "trusted_base": ["model: lean/CliUtils/Model/{Funnel,Reporter}.lean (hand-written; reduction: 'receive on counterCh then test the exit condition' is one atomic step)"],
+    },
 }
 
 _KS_TRUSTED = ["model: lean/CliUtils/Model/{Json,Status}.lean (hand-written from pkg/kstatus/status/{status,generic,core,util}.go and the "
@@ -272,4 +314,46 @@ PROPS["C09"] = {
                     "unchanged, pure, status in the four values, condition shape) is evaluated on the implementation's outputs."),
     "assumptions": _KS_ASSUME,
     "trusted_base": _KS_TRUSTED,
+    "C16": {
+        "level_text": ("Machine-checked Lean 4 theorems about (1) the event multiplexer of the status watcher as a labelled transition system "
+                       "under every interleaving of its goroutines with cancellation, the owners of the input channels and the consumer "
+                       "(counter invariant, no send on / second close of the closed output, no stuck decrement or add, per-input FIFO with no "
+                       "loss or duplication, output closed only after cancellation and after every accepted input is closed and drained, "
+                       "termination measure, last event per object preserved) and (2) the sequential decision logic of ObjectStatusReporter "
+                       "(allow-list filter, handler output incl. NotFound for deletes, start/stop table as a closed form of the namespace / CRD / "
+                       "watch-error history per REST scope, watch-error classes, at most one error event with the once-guard). The model is tied "
+                       "to the code by trace inclusion: histories of the REAL eventFunnel driven by random goroutine programs must be accepted "
+                       "by the model's checker (proved sound), and the REAL DefaultStatusWatcher / ObjectStatusReporter over a fake dynamic client "
+                       "is compared with the model on schedule-independent observables."),
+        "level_note": ("Data races, goroutine leaks and deadlocks of the Go runtime cannot be exhibited by the model; they are observed by the "
+                       "harness only (recovered panics / dead child process, goroutine count before/after with settle time, timeouts), as "
+                       "supporting validation. The theorems are about the model: interleaving semantics with atomic channel rendezvous; informers, "
+                       "contexts and the fake API server are environment. Trusted: Lean kernel (+propext, Quot.sound, Classical.choice), the "
+                       "hand-written model, the Go harness (incl. its LIST/WATCH gate for the resourceVersion-less fake tracker) and the driver."),
+        "technique": "Lean 4 proof (invariants of a transition system, trace-checker soundness) + trace-inclusion / differential correspondence against the real Go code",
+        "domains": ["funnel", "watcher", "watcher-fatal"],
+        "rule": ("funnel: random programs (1-4 producers, 0-3 events each, add/send/close with seeded delays of 0-0.8 ms, cancellation at a random "
+                 "point, optionally slow consumer) run against the real eventFunnel, one case at a time in child processes; a case is non-trivial "
+                 "if it has >= 2 producers or >= 2 events. watcher: 6 hand-written reporter configurations + random scripts (2-9 mutation rounds of "
+                 "create/update/delete on watched and unwatched Pods, ConfigMaps, a Deployment in 2 namespaces, optional watched Namespace object "
+                 "deleted and re-created, optional CRD + custom resource installed/removed, root / namespace / automatic scope, optional slow "
+                 "LIST, racing (no barriers) or strict mode, cancellation at a random step in 1/6 of the cases); non-trivial if >= 2 mutations. "
+                 "watcher-fatal: LIST Forbidden on 0-3 of 3 watched kinds, both scopes, consumer delayed 0-30 ms, 48 trials (quick); quick runs 5000 funnel programs and 706 watcher scripts; "
+                 "non-trivial if >= 2 kinds fail. distinct = distinct canonical input JSON."),
+        "exhaustive_quick": False,
+        "timeout_quick": 300,
+        "explanation": ("Theorems: see level_text. Tie: (a) every observed history of the real funnel (successful / rejected adds, sends, input "
+                        "closes, cancel, output deliveries, output close; logged under a mutex at points where log order is a sound linearisation) "
+                        "is checked for acceptance by Model.Funnel.accepts, which is proved to accept only traces of the transition system; the "
+                        "property predicate (no panic, closed, no leak, each accepted input delivered once in order, closed only after cancel and "
+                        "after every accepted input was closed) is evaluated on the history independently of the model. (b) the real watcher runs "
+                        "scripted cluster histories; per-object event sequences, final statuses, sync/error counts, closure, the target list and (for "
+                        "directly configured reporters) the informer table are compared with Model.Reporter run on the same script, and the property "
+                        "(one sync after the initial LISTs, last event per watched object = status the library computes for its final version or "
+                        "NotFound, nothing for unwatched ids, at most one error, channel closed, no panic) is evaluated on the observations."),
+        "assumptions": ["the fake tracker has no resourceVersions, so the harness never mutates the cluster between an informer's LIST and its WATCH",
+                        "a Namespace / CRD is deleted the way a cluster does it: contents first",
+                        "timeouts (4-6 s) stand for 'never'"],
+        "trusted_base": ["model: lean/CliUtils/Model/{Funnel,Reporter}.lean (hand-written; reduction: 'receive on counterCh then test the exit condition' is one atomic step)"],
+    },
 }
